@@ -31,6 +31,66 @@ def others_projection(cfg, beh):
     return (tuple(tuple(tuple(lg) for i, lg in enumerate(st['legs']) if not (drop and i == k)) for st in beh['steps']), beh['val'])
 
 
+def plant_placements(chk, seed):
+    """Plant / CHP (not part of the reference model EAOModel) at every placement: outside the horizon it must be inert (same optimum as
+    without it, no exception); inside, its reported dispatch is zero outside its window"""
+    import datetime as dt
+
+    import numpy as np
+    from harness.realise import eao, quiet
+    A = eao.assets
+    S = dt.datetime(2021, 1, 4)
+    H = dt.timedelta(hours=1)
+    T = 6
+    places = dict(before=(-5, -2), touching_before=(-3, 0), straddle_start=(-2, 3), inside=(1, 4), straddle_end=(4, 9), touching_after=(6, 9), after=(10, 12), covering=(-2, 9))
+    for (pname, (a, b)), kind, pr in [(p, k, q) for p in places.items() for k in ('plant', 'chp', 'plant_fuel') for q in (0, 1)]:
+        def build(with_it):
+            n, h, g = A.Node('n'), A.Node('h'), A.Node('g')
+            tg = A.Timegrid(S, S + T * H, freq='h')
+            assets = [A.SimpleContract('m', n, price='p', min_cap=-3, max_cap=3)]
+            kw = dict(name='x', min_cap=1, max_cap=2, extra_costs=1., min_runtime=2, start_costs=0.5, start=S + a * H, end=S + b * H)
+            if kind == 'chp':
+                assets.append(A.SimpleContract('hs', h, price='q', min_cap=-3, max_cap=0))
+            if kind == 'plant_fuel':
+                assets.append(A.SimpleContract('gas', g, price='q', min_cap=-9, max_cap=9))
+            if with_it:
+                if kind == 'plant':
+                    assets.append(A.Plant(nodes=[n], **kw))
+                elif kind == 'chp':
+                    assets.append(A.CHPAsset(nodes=[n, h], max_share_heat=1., **kw))
+                else:
+                    assets.append(A.Plant(nodes=[n, g], fuel_efficiency=0.5, start_fuel=1., **kw))
+            prices = {'p': np.array([[5., 1., 6., 2., 7., 1.], [1., 6., 1., 5., 2., 6.]][pr]), 'q': np.array([1.] * T)}
+            return eao.portfolio.Portfolio(assets), prices, tg
+        sel = dict(check='plant_placement', placement=pname, element=kind)
+        chk.cnt['eval_plant_placements'] += 1
+        try:
+            pf, prices, tg = build(True)
+            with quiet():
+                op = pf.setup_optim_problem(prices, tg)
+            st, v1, x1 = Problem(op).solve()
+            pf0, prices0, tg0 = build(False)
+            with quiet():
+                op0 = pf0.setup_optim_problem(prices0, tg0)
+            st0, v0, x0 = Problem(op0).solve()
+        except Exception as e:
+            chk.violation(dict(sel, check='setup_raises', error=type(e).__name__), 'set-up raised %s: %s' % (type(e).__name__, str(e)[:100]), dict(kind=kind, placement=pname))
+            continue
+        outside = pname in OUTSIDE
+        if outside and (v1 is None or abs(v1 - v0) > 1e-7 * max(1, abs(v0))):
+            chk.violation(dict(sel, check='pair_value'), 'optimum with the outside plant %s differs from the optimum without it %s' % (v1, v0), dict(kind=kind, placement=pname))
+            continue
+        if st == 'optimal':
+            m = op.mapping
+            rows = m[(m['asset'] == 'x') & (m['type'] == 'd')]
+            lo, hi = max(a, 0), min(b, T)
+            bad = [int(r.time_step) for i, r in rows.iterrows() if not (lo <= int(r.time_step) < hi) and abs(x1[int(i)]) > 1e-7]
+            if bad or any(not (lo <= int(ts) < hi) for ts in rows['time_step']):
+                chk.violation(dict(sel, check='dispatch_outside_window'), 'the plant has variables / dispatch outside its clipped window', dict(kind=kind, placement=pname))
+                continue
+        chk.nontrivial(('plant', kind, pname, pr))
+
+
 def run(tier, seed):
     chk = CheckRun('C08', tier, seed)
     th = tier == 'thorough'
@@ -78,6 +138,7 @@ def run(tier, seed):
                               dict(cfg=c))
             else:
                 chk.nontrivial(('pair', tag, c['id']))
+    plant_placements(chk, seed)
     chk.assumptions += ['windows and take periods on step / tick lattices around a 3-step horizon (4 in the thorough tier)']
     return chk.finish(rule='every asset kind x every placement of its window (before, touching, straddling, inside, empty, after, covering); take periods '
                            'x placements x min/max x contract/transport; order lists with outside orders; with/without pairs', exhaustive=True)
